@@ -85,6 +85,7 @@ type Exec struct {
 type qRecord struct {
 	seen map[string]bool
 	acc  [][2]string // (array ref term, offset term)
+	pats []string    // ghost-array selects indexed directly by the bound variable
 }
 
 func newExec(w *World, u *Unit) *Exec {
